@@ -72,6 +72,13 @@ Proof.
   rewrite <- Ex. apply in_map. tauto.
 Qed.
 
+Lemma chinv_orphan h ch tag : chinv h ch -> chinv h (ch <| ch_unacked ::= map (orphan tag) |>).
+Proof.
+  unfold chinv. cbn. intros (A & B). rewrite map_orphan_tag. split; auto.
+  intros u Hu. apply in_map_iff in Hu. destruct Hu as (u0 & E & Hu0). subst u.
+  destruct (orphan_fields tag u0) as (Et & _). rewrite Et. auto.
+Qed.
+
 Lemma chinv_del h ch tag : chinv h ch -> chinv h (del_unacked ch tag).
 Proof.
   unfold chinv, del_unacked. cbn. intros (A & B). split.
@@ -446,6 +453,7 @@ Proof.
       destruct (seqb tag ""%string); repeat same_conns; auto.
   - (* MCancel *)
     destruct (find_consumer ch tag); [|exact H]. cbn [fst].
+    apply allch_upd_chan; [intros ch0 Hc0; apply chinv_orphan; exact Hc0|].
     apply allch_upd_chan; [intros ch0 Hc0; eapply chinvp_set; [..|exact Hc0]; reflexivity|]. apply CI_consumer_stop. exact H.
   - (* MGet *)
     destruct (queue_found s q) as [qu|]; [|exact H].
